@@ -78,8 +78,32 @@ fn main() {
     lean.push_str(&krate.shape_checks());
 
     let mut translated_quals = Vec::new();
+    let mut emitted_helpers: Vec<String> = Vec::new();
+    fn helpers_of(entry: &BTreeMap<String, Json>) -> Vec<String> {
+        match entry.get("auto_helpers") {
+            Some(Json::A(v)) => v.iter().filter_map(|j| if let Json::S(s) = j { Some(s.clone()) } else { None }).collect(),
+            _ => vec![],
+        }
+    }
+    fn emit_helper(krate: &Crate, q: &str, emitted: &mut Vec<String>, lean: &mut String, entries: &mut Vec<BTreeMap<String, Json>>, quals: &mut Vec<String>) {
+        if emitted.iter().any(|e| e == q) {
+            return;
+        }
+        emitted.push(q.to_string());
+        let (text, entry) = krate.translate_helper(q);
+        for h in helpers_of(&entry) {
+            emit_helper(krate, &h, emitted, lean, entries, quals);
+        }
+        lean.push_str(&text);
+        lean.push('\n');
+        quals.push(q.to_string());
+        entries.push(entry);
+    }
     for item in config::ITEMS {
         let (text, entry) = krate.translate_item(item);
+        for h in helpers_of(&entry) {
+            emit_helper(&krate, &h, &mut emitted_helpers, &mut lean, &mut entries, &mut translated_quals);
+        }
         lean.push_str(&text);
         lean.push('\n');
         if let Some(Json::S(q)) = entry.get("rust") {
